@@ -27,6 +27,7 @@
 #include "cppClosureType.h"
 #include "cppReferenceType.h"
 #include "cppStructType.h"
+#include "cppTypedefType.h"
 #include "cppBison.h"
 #include "cppParameterList.h"
 #include "pdtoa.h"
@@ -938,29 +939,35 @@ evaluate() const {
     return Result();
 
   case T_type_trait:
+    {
+    // The traits describe the type a typedef name stands for.
+    CPPType *trait_type = _u._type_trait._type;
+    while (trait_type->as_typedef_type() != nullptr) {
+      trait_type = trait_type->as_typedef_type()->_type;
+    }
     switch (_u._type_trait._trait) {
     case KW_HAS_VIRTUAL_DESTRUCTOR:
       {
-        CPPStructType *struct_type = _u._type_trait._type->as_struct_type();
+        CPPStructType *struct_type = trait_type->as_struct_type();
         return Result(struct_type != nullptr && struct_type->has_virtual_destructor());
       }
 
     case KW_IS_ABSTRACT:
       {
-        CPPStructType *struct_type = _u._type_trait._type->as_struct_type();
+        CPPStructType *struct_type = trait_type->as_struct_type();
         return Result(struct_type != nullptr && struct_type->is_abstract());
       }
 
     case KW_IS_BASE_OF:
       {
-        CPPStructType *struct_type1 = _u._type_trait._type->as_struct_type();
+        CPPStructType *struct_type1 = trait_type->as_struct_type();
         CPPStructType *struct_type2 = _u._type_trait._arg->as_struct_type();
         return Result(struct_type1 != nullptr && struct_type2 != nullptr && struct_type1->is_base_of(struct_type2));
       }
 
     case KW_IS_CLASS:
       {
-        CPPExtensionType *ext_type = _u._type_trait._type->as_extension_type();
+        CPPExtensionType *ext_type = trait_type->as_extension_type();
         return Result(ext_type != nullptr && (
           ext_type->_type == CPPExtensionType::T_class ||
           ext_type->_type == CPPExtensionType::T_struct));
@@ -968,58 +975,58 @@ evaluate() const {
 
     case KW_IS_CONSTRUCTIBLE:
       if (_u._type_trait._arg == nullptr) {
-        return Result(_u._type_trait._type->is_default_constructible());
+        return Result(trait_type->is_default_constructible());
       } else {
-        return Result(_u._type_trait._type->is_constructible(_u._type_trait._arg));
+        return Result(trait_type->is_constructible(_u._type_trait._arg));
       }
 
     case KW_IS_CONVERTIBLE_TO:
       assert(_u._type_trait._arg != nullptr);
-      return Result(_u._type_trait._type->is_convertible_to(_u._type_trait._arg));
+      return Result(trait_type->is_convertible_to(_u._type_trait._arg));
 
     case KW_IS_DESTRUCTIBLE:
-      return Result(_u._type_trait._type->is_destructible());
+      return Result(trait_type->is_destructible());
 
     case KW_IS_EMPTY:
       {
-        CPPStructType *struct_type = _u._type_trait._type->as_struct_type();
+        CPPStructType *struct_type = trait_type->as_struct_type();
         return Result(struct_type != nullptr && struct_type->is_empty());
       }
 
     case KW_IS_ENUM:
-      return Result(_u._type_trait._type->is_enum());
+      return Result(trait_type->is_enum());
 
     case KW_IS_FINAL:
       {
-        CPPStructType *struct_type = _u._type_trait._type->as_struct_type();
+        CPPStructType *struct_type = trait_type->as_struct_type();
         return Result(struct_type != nullptr && struct_type->is_final());
       }
 
     case KW_IS_FUNDAMENTAL:
-      return Result(_u._type_trait._type->is_fundamental());
+      return Result(trait_type->is_fundamental());
 
     case KW_IS_POD:
-      return Result(_u._type_trait._type->is_trivial() &&
-                    _u._type_trait._type->is_standard_layout());
+      return Result(trait_type->is_trivial() &&
+                    trait_type->is_standard_layout());
 
     case KW_IS_POLYMORPHIC:
       {
-        CPPStructType *struct_type = _u._type_trait._type->as_struct_type();
+        CPPStructType *struct_type = trait_type->as_struct_type();
         return Result(struct_type != nullptr && struct_type->is_polymorphic());
       }
 
     case KW_IS_STANDARD_LAYOUT:
-      return Result(_u._type_trait._type->is_standard_layout());
+      return Result(trait_type->is_standard_layout());
 
     case KW_IS_TRIVIAL:
-      return Result(_u._type_trait._type->is_trivial());
+      return Result(trait_type->is_trivial());
 
     case KW_IS_TRIVIALLY_COPYABLE:
-      return Result(_u._type_trait._type->is_trivially_copyable());
+      return Result(trait_type->is_trivially_copyable());
 
     case KW_IS_UNION:
       {
-        CPPExtensionType *ext_type = _u._type_trait._type->as_extension_type();
+        CPPExtensionType *ext_type = trait_type->as_extension_type();
         return Result(ext_type != nullptr &&
           ext_type->_type == CPPExtensionType::T_union);
       }
@@ -1027,6 +1034,7 @@ evaluate() const {
     default:
       cerr << "**unexpected type trait**\n";
       abort();
+    }
     }
 
   case T_requires_expr:
